@@ -7,7 +7,7 @@ import sys
 import numpy as real_np
 import z3
 
-from symx import core, loader
+from symx import core, loader, slicer
 from symx.core import SN, SB, real, integer, explore
 from symx.report import main
 
@@ -232,6 +232,100 @@ def h_roundtrip(ft, f, cdkind):
     return h
 
 
+FB = 'AegeanTools/BANE.py'
+
+
+def h_bane_compressed():
+    """the block of BANE.filter_image that writes compressed maps: compress() edits the header it is given IN PLACE, so each of
+    the two maps must be handed its own copy of the image header"""
+    import copy as real_copy
+
+    def h(c):
+        fac, text = slicer.slice_function(FB, 'filter_image', targets=['hdu', 'hdulist', 'hdu.header', 'hdulist[0].header', 'hdulist[0].data'], calls=['compress('],
+                                          params=['bkg', 'rms', 'bscale', 'header', 'step_size', 'bkg_out', 'rms_out', 'compressed', 'out_base'], closure=False)
+        calls = []
+
+        class HDU:
+            def __init__(self, data=None, header=None):
+                self.data, self.header = data, header
+
+        class Fits:
+            PrimaryHDU = HDU
+            HDUList = list
+
+        def compress(datafile, factor, outfile=None):
+            hd = datafile[0].header
+            calls.append((dict(hd), datafile[0].data, outfile))
+            # what the real compress does to the header it is given (C15 K-bookkeeping decides the real one)
+            hd['CRPIX1'] = (hd['CRPIX1'] - 1) / factor + 1
+            hd['CRPIX2'] = (hd['CRPIX2'] - 1) / factor + 1
+            hd['CDELT1'] = hd['CDELT1'] * factor
+            hd['CDELT2'] = hd['CDELT2'] * factor
+            hd['BN_CFAC'] = factor
+            return datafile
+        header = {'CRPIX1': real('crpix1'), 'CRPIX2': real('crpix2'), 'CDELT1': real('cdelt1'), 'CDELT2': real('cdelt2'), 'HISTORY': 'x'}
+        orig = dict(header)
+
+        class Arr2:
+            def __init__(self, nm):
+                self.nm = nm
+
+            def __truediv__(self, o):
+                return (self.nm, o)
+        f = fac(dict(core.BUILTINS, fits=Fits, copy=real_copy, compress=compress, logging=loader.NullLog(), os=__import__('os')))
+        f(Arr2('bkg'), Arr2('rms'), 1.0, header, (integer('grid'), integer('grid')), 'o_bkg.fits', 'o_rms.fits', True, 'o')
+        tag = 'filter_image compressed output'
+        c.oblige(tag + ':compress called once per map', z3.BoolVal(len(calls) == 2))
+        if len(calls) != 2:
+            return dict(slice=text[:500])
+        L = core.lift
+        for k, nm in ((0, 'bkg'), (1, 'rms')):
+            hd, data, out = calls[k]
+            c.oblige(tag + ':%s map compressed from the image header itself (not one already rescaled)' % nm,
+                     z3.And([L(hd[q]) == L(orig[q]) for q in ('CRPIX1', 'CRPIX2', 'CDELT1', 'CDELT2')] + [z3.BoolVal('BN_CFAC' not in hd)]))
+            c.oblige(tag + ':%s data and file name' % nm, z3.BoolVal(isinstance(data, tuple) and data[0] == nm and out == 'o_%s.fits' % nm))
+        c.oblige(tag + ":the caller's header is left alone", z3.And([L(header[q]) == L(orig[q]) for q in ('CRPIX1', 'CRPIX2', 'CDELT1', 'CDELT2')]))
+        return dict(slice=text[:500])
+    return h
+
+
+def bane_compressed_oracle():
+    """real BANE with compressed output: both files expand to the image's shape and WCS"""
+    import os
+    import shutil
+    import tempfile
+    from astropy.io import fits
+    bane = loader.real('BANE')
+    ft = loader.real('fits_tools')
+    d = tempfile.mkdtemp(prefix='c15b_', dir='/var/tmp')
+    try:
+        rng = real_np.random.default_rng(2)
+        img = rng.normal(0, 1, (60, 75)).astype(real_np.float32)
+        hdr = fits.Header()
+        hdr['CTYPE1'], hdr['CTYPE2'] = 'RA---SIN', 'DEC--SIN'
+        hdr['CRVAL1'], hdr['CRVAL2'] = 30.0, -40.0
+        hdr['CRPIX1'], hdr['CRPIX2'] = 35.25, 30.5
+        hdr['CDELT1'], hdr['CDELT2'] = -0.01, 0.01
+        hdr['BMAJ'] = hdr['BMIN'] = 0.03
+        hdr['BPA'] = 0.0
+        fn = os.path.join(d, 'im.fits')
+        fits.PrimaryHDU(img, header=hdr).writeto(fn)
+        bane.filter_image(fn, os.path.join(d, 'out'), step_size=(4, 4), box_size=(12, 12), cores=1, nslice=1, compressed=True)
+        for nm in ('bkg', 'rms'):
+            e = ft.expand(os.path.join(d, 'out_%s.fits' % nm))
+            h_ = e[0].header
+            if tuple(e[0].data.shape) != img.shape:
+                return True, 'bane-compressed-shape', 'the compressed %s map expands to shape %s, the image is %s' % (nm, e[0].data.shape, img.shape)
+            for k in ('CRPIX1', 'CRPIX2', 'CDELT1', 'CDELT2'):
+                if abs(h_[k] - hdr[k]) > 1e-9:
+                    return True, 'bane-compressed-wcs', 'the compressed %s map written by BANE expands to %s = %r, the image has %r' % (nm, k, h_[k], hdr[k])
+        return False, None, None
+    except Exception as e:
+        return True, 'raises-%s' % type(e).__name__, repr(e)[:300]
+    finally:
+        shutil.rmtree(d, ignore_errors=True)
+
+
 def oracle(shape, f, cd='CDELT'):
     """property-level oracle on the real compress/expand through in-memory HDUs"""
     from astropy.io import fits
@@ -319,6 +413,25 @@ def run(rep):
         rep.validated_runs(1)
         if bad:
             rep.finding('C15/K-bookkeeping/%s' % cls, dict(shape=list(shape), factor=f, cd=cdk), detail, kernel='K-bookkeeping')
+    rep.kernel('K-bane-output', functions=[FB + ':filter_image'], bounds='the block that writes compressed maps; header values and grid symbolic',
+               stubs=['compress -> recorder that edits the header it is given in place, as the real one does', 'astropy HDU objects -> records'],
+               assumes=['slice: statements assigning hdu / hdulist / their header and data, and the compress calls (with their enclosing if)'])
+    try:
+        st, res = explore(h_bane_compressed())
+        rep.stats(st)
+        for r in res:
+            for ob in r['obligations']:
+                rep.count(ob['result'], ob['name'])
+                if ob['result'] == 'sat':
+                    bad, cls, detail = bane_compressed_oracle()
+                    rep.finding('C15/K-bane-output/%s' % (cls or ob['name'].split(':')[-1]), dict(bane=True), detail or ob['name'], reproduced=bad)
+    except slicer.AnchorMissing as e:
+        rep.inconc('K-bane-output: anchor-missing %s' % e)
+    bad, cls, detail = bane_compressed_oracle()
+    rep.validated_runs(1)
+    if bad:
+        rep.finding('C15/K-bane-output/%s' % cls, dict(bane=True), detail)
+    rep.end_kernel()
     # a compressed map is read like an uncompressed one and yields the image's shape (the loader Aegean uses; C20 decides it)
     from checks import C20
     for rows_, n_ in ((47, 3), (12, 1), (9, 4)):
@@ -335,6 +448,9 @@ def run(rep):
 
 def replay(w):
     wit = w['witness']
+    if wit.get('bane'):
+        bad, cls, detail = bane_compressed_oracle()
+        return bad, '%s: %s' % (cls, detail)
     if wit.get('accept'):
         from checks import C20
         bad, cls, detail = C20.oracle_bands(int(wit['rows']), int(wit['n']), 'compressed', cols=38)
